@@ -52,17 +52,20 @@ func (d *Directory) Mangle(callback MangleFunc) (*Mangler, error) {
 		// bytes where they are: that is only right if the members are
 		// contiguous. Refuse anything else (leading stub, gaps) instead of
 		// writing a directory that points into the wrong place.
+		if int64(mf.Offset) != pos {
+			return nil, fmt.Errorf("zip member %q is at offset %d but %d was expected: archives with leading or embedded non-archive data cannot be rewritten", mf.Name, mf.Offset, pos)
+		}
+		if err := callback(mf); err != nil {
+			return nil, err
+		}
+		// only after the callback: on a streamed (forward-only) archive
+		// finding the size reads past the member's data, which the callback
+		// could then no longer open
 		size, err := mf.GetTotalSize()
 		if err != nil {
 			return nil, err
 		}
-		if int64(mf.Offset) != pos {
-			return nil, fmt.Errorf("zip member %q is at offset %d but %d was expected: archives with leading or embedded non-archive data cannot be rewritten", mf.Name, mf.Offset, pos)
-		}
 		pos += size
-		if err := callback(mf); err != nil {
-			return nil, err
-		}
 		if mf.deleted {
 			m.patch.Add(int64(mf.Offset), size, nil)
 		} else {
